@@ -670,7 +670,7 @@ func writeEvidence(verif, prop, tier string, seed int, eng *Engine, fvs []*FuncV
 
 var thoroughExtras map[string]interface{}
 
-var effectProps = map[string]bool{"C08": true, "C20": true, "C05": true, "C04": true, "C03": true, "C10": true}
+var effectProps = map[string]bool{"C08": true, "C20": true, "C05": true, "C04": true, "C03": true, "C10": true, "C09": true}
 
 func libScope(eng *Engine) func(string) bool {
 	return func(p string) bool {
@@ -696,6 +696,8 @@ func runEffects(eng *Engine, prop string) []*EffObl {
 		return g.writesOnlyObligations("C03")
 	case "C10":
 		return g.repanicCleanObligations("C10")
+	case "C09":
+		return g.firstCallObligations("C09")
 	case "C04":
 		return append(append(g.compilePanicObligations(), g.arityObligations()...), g.stableObligations()...)
 	}
